@@ -56,7 +56,12 @@ def run(rep, prog, tier):
         rep.check(n1 == n2, R, "insert_key has the same explicit panics with and without debug assertions", "%d / %d panic_fmt site(s)" % (n1, n2),
                   "insert_key loses %d explicit panic(s) when debug assertions are off: a check the tests rely on is compiled out in release" % (n1 - n2), site=db.span)
     fid = "tantivy::termdict::fst_termdict::termdict::TermDictionaryBuilder::<W>::insert_key"
-    fb = get_body(rep, prog, R, fid)
+    if getattr(prog, "config", "default") == "quickwit":
+        # with the `quickwit` feature the term dictionary is the sstable one: the fst builder is cfg'd out
+        rep.ok(R, "fst TermDictionaryBuilder::insert_key", "not compiled with the quickwit feature (the sstable dictionary is used)", site="")
+        fb = None
+    else:
+        fb = get_body(rep, prog, R, fid)
     if fb is not None:
         ins = prog.names(r"^tantivy_fst::.*MapBuilder::<W>::insert$")
         rule_result_checked(rep, prog, R, fid, ins, "fst MapBuilder::insert")
